@@ -197,6 +197,22 @@ void partitionOps(NifFile& nif, const std::string& shapeName, const std::string&
 		if (loadFromString(re, saveToString(copy, true, true)) == 0)
 			if (auto rs = byName(re, shapeName)) partitionEvent(re, rs, "SaveReload", caseJson, out);
 	}
+	// faces the existing partitions do not know (a new face, and a face listed twice), then a rebuild
+	{
+		NifFile copy(nif);
+		if (auto cs = byName(copy, shapeName)) {
+			std::vector<Triangle> tris;
+			cs->GetTriangles(tris);
+			uint16_t nv = cs->GetNumVertices();
+			if (nv >= 3 && !tris.empty() && tris.size() < 60000) {
+				tris.emplace_back(uint16_t(0), uint16_t(nv / 2), uint16_t(nv - 1));
+				tris.push_back(tris[0]);
+				cs->SetTriangles(tris);
+				copy.UpdateSkinPartitions(cs);
+				partitionEvent(copy, cs, "AddFaces+Update", caseJson, out);
+			}
+		}
+	}
 	nif.SetDefaultPartition(shape);
 	nif.UpdateSkinPartitions(shape);
 	partitionEvent(nif, shape, "SetDefaultPartition+Update", caseJson, out);
